@@ -133,7 +133,8 @@ def lib_rt_functions(repo_root: str) -> tuple[dict, dict]:
     h = hashlib.sha1()
     for f in sorted(glob.glob(os.path.join(librt, "**", "*.[ch]"), recursive=True)):
         with open(f, "rb") as fh:
-            h.update(f.encode() + b"\0" + fh.read())
+            # relative names: scratch copies of an unchanged lib-rt share one cache entry
+            h.update(os.path.relpath(f, librt).encode() + b"\0" + fh.read())
     h.update(subprocess.run([clang, "--version"], capture_output=True).stdout)
     with open(__file__, "rb") as fh:
         h.update(fh.read())
@@ -173,7 +174,13 @@ def lib_rt_functions(repo_root: str) -> tuple[dict, dict]:
             if mm.group(1) not in funcs and mm.group(1) not in macros:
                 macros[mm.group(1)] = -2  # defined in source but not in clang's AST (conditional compilation)
     os.makedirs(CACHE, exist_ok=True)
-    with open(cpath + ".tmp", "w") as fh:
+    old_entries = sorted(glob.glob(os.path.join(CACHE, "*.json")), key=os.path.getmtime)
+    for stale in old_entries[:-8]:  # keep the cache small
+        try:
+            os.remove(stale)
+        except OSError:
+            pass
+    with open(cpath + f".{os.getpid()}.tmp", "w") as fh:
         json.dump({"functions": funcs, "macros": macros, "unit_errors": errors}, fh)
-    os.replace(cpath + ".tmp", cpath)
+    os.replace(cpath + f".{os.getpid()}.tmp", cpath)
     return funcs, macros
